@@ -20,6 +20,10 @@ CHECKS = {
    text="Three workloads: (seq) tape-generated histories of next/send, play, pause, resume, stop, reset on routines with scripted bodies (yield numbers/other values, return, raise, YieldAndReset, AlwaysYield, StopStream, nested routines, self-directed pause/stop/reset) checked op by op against a sequential state-machine model incl. current-thread/parent-chain restoration; (sync) real sc3 in the simulated RT world under faults with routines waiting on Conditions/FlowVars while the driver, user threads and other routines signal, unhang and set tests/values - every continuation must be justified, happen exactly once, not be missing at quiescence, and no routine may resume before its yielded delay; (ctl) pause/resume/stop applied concurrently to playing routines - transition table at the linearisation point, no body step while Paused/Done. Exploration, not proof.",
    note="Concurrent operations are linearised by holding the re-entrant main lock around each harness operation; seq cases involve no scheduler.",
    tech="deterministic simulation with fault injection (concurrent op histories on simulated clocks vs state-machine/condition models; sequential model-based histories)"),
+ 'C18': dict(
+   text="Real sc3 receive path (UDP receive threads on two simulated ports -> _osclib decoder -> SystemClock dispatch -> dispatchers/matchers -> responders) in the simulated RT world under scheduling/timing faults, driven by tape-generated histories of responder creation, enable/disable/free/one_shot/function replacement, CmdPeriod, SystemAction/ServerAction/NotificationCenter add/remove/run interleaved with datagrams from simulated remote endpoints: valid messages and nested bundles with literal and pattern addresses sharing prefixes, and F5-mutated datagrams (truncation, bit flips, tampered element lengths incl. negative, junk, empty, trailing bytes, duplicates). Oracles: responder-registry model, textbook OSC pattern matcher (both readings, disagreements counted as ambiguous), strict independent decoder, callback arguments, receiver liveness incl. a deterministic LINE-event hang detector, probe message after every faulty datagram. Exploration, not proof.",
+   note="Registry operations are issued at quiescent points (sequentially consistent with dispatches); datagrams the library accepts but the strict decoder rejects are counted (lenient-accept), not judged; order across the two default dispatchers is unconstrained.",
+   tech="deterministic simulation with fault injection (network fault injection on simulated UDP + registry op histories vs reference models)"),
  'C12': dict(
    text="Generated programs of routines that read and change tempo, beats and meter of 1-3 TempoClocks (tempo changes landing while the clock thread sleeps), query next_time_on_grid/next_bar/bar/beat_in_bar/conversions and play children with quants, run by real sc3 in RT fault-free, RT under seeded faults and NRT; round-trip, continuity, congruence/earliest, bar and meter laws at every query/change, beats-advance and quantised child start from the execution trace, whole trace vs affine-map model for programs without map changes. Exploration, not proof.",
    note="Reference points within 1e-7 of a grid point are accepted on either side; what a map change does to pending wake-ups is left to C10.",
